@@ -66,8 +66,9 @@
 (*                                                                             *)
 (* Named deviations: sessions are short sequences over {1, 2}; the harness     *)
 (* widens every element to a block of W bytes (W = 1, 16, 33, 800), so <<1,1>> and *)
-(* <<1,2>> are ssid||1 and ssid||2.  The prover's calls do not feed the "stmt" *)
-(* cache.  An in-place write of equal content is the buffer re-used as it is.  *)
+(* <<1,2>> are ssid||1 and ssid||2.  The prover works on its own statement       *)
+(* objects (they replace what the "stmt" cache holds).  An in-place write of   *)
+(* equal content is the buffer re-used as it is.                               *)
 
 EXTENDS Naturals, Sequences, FiniteSets, TLC, Json
 
@@ -150,7 +151,7 @@ Prove(k, b, s, how) ==
          it == [kind |-> k, sess |-> s, bound |-> [v \in Variants |-> IF tg THEN TagUsed(v, lib[v], a, h) ELSE s]]
      IN /\ heap' = h /\ buf' = bb
         /\ items' = Append(items, it) /\ rem' = RemoteStep(rem, it)
-        /\ lib' = [v \in Variants |-> IF tg THEN TagNext(v, lib[v], a, h) ELSE lib[v]]
+        /\ lib' = [v \in Variants |-> StmtNext(v, IF tg THEN TagNext(v, lib[v], a, h) ELSE lib[v], <<"own", Len(items) + 1>>, Len(items) + 1)]
         /\ hist' = Append(hist, [op |-> "prove", item |-> Len(items) + 1, kind |-> k, buf |-> b, how |-> how, sess |-> s,
                                  stm |-> "own", hd |-> "mem", mem |-> MemOf(h, bb), alloc |-> AllocOf(bb),
                                  out |-> [v \in Variants |-> "acc"]])
